@@ -157,7 +157,8 @@ Inductive owner := OProc (k : nat) | OTb (k : nat).
 
 (* ---------- engine state ---------- *)
 Record estate := ES { e_slots : list slot; e_procs : list pstate; e_tbs : list tbstate;
-                      e_now : Z; e_deltas : nat; e_trace : list Z }.
+                      e_now : Z; e_deltas : nat;
+                      e_trace : list (nat * list Z) (* (testbench index, record) in the order the records were made *) }.
 
 Record orders := Ord { o_trig : list owner; o_proc : list nat; o_commit : list nat }.
 
@@ -288,8 +289,8 @@ Definition tl_advance (st : estate) : estate :=
   end.
 
 (* ---------- testbench execution: AsyncProcess.run of a testbench + TestbenchContext ---------- *)
-Definition tb_put (st : estate) (k : nat) (t : tbstate) (tr : list Z) : estate :=
-  ES (e_slots st) (e_procs st) (set_nth k t (e_tbs st)) (e_now st) (e_deltas st) (e_trace st ++ tr).
+Definition tb_put (st : estate) (k : nat) (t : tbstate) (tr : list (list Z)) : estate :=
+  ES (e_slots st) (e_procs st) (set_nth k t (e_tbs st)) (e_now st) (e_deltas st) (e_trace st ++ map (pair k) tr).
 
 Definition zk (k : nat) : Z := Z.of_nat k.
 
@@ -312,8 +313,8 @@ Definition wait_on (t : tbstate) (T : tstate) (mode : Z) (cnt : nat) : tbstate :
   TB false (tb_ops t) T [] mode cnt (tb_critical t).
 Definition rewait (T : tstate) : tstate := TS (t_pos T) (t_oneshot T) true (t_broken T) (t_active T).
 
-(* trace records: [k; -1; v] get, [k; -2; now; results...] completed wait, [k; -7] BrokenTrigger, [k; -8] DomainReset,
-   [k; -9; now] testbench finished *)
+(* trace records (k, r) of testbench k: r = [-1; v] get, [-2; now; results...] completed wait, [-7] BrokenTrigger,
+   [-8] DomainReset, [-9; now] testbench finished *)
 Fixpoint tb_exec (ps : list proc) (orc : oracle) (sfuel : nat) (fuel : nat) (k : nat) (st : estate) : estate :=
   match fuel with
   | O => st
@@ -322,7 +323,7 @@ Fixpoint tb_exec (ps : list proc) (orc : oracle) (sfuel : nat) (fuel : nat) (k :
       let nowz := e_now st in
       if tb_mode t =? 0 then
         match tb_ops t with
-        | [] => tb_put st k (finish_tb t) [zk k; -9; nowz]
+        | [] => tb_put st k (finish_tb t) [[-9; nowz]]
         | OSet sig sh v :: r =>
             let st' := tb_set ps orc sfuel sig sh v st in
             let t' := nth k (e_tbs st') no_tb in
@@ -331,33 +332,33 @@ Fixpoint tb_exec (ps : list proc) (orc : oracle) (sfuel : nat) (fuel : nat) (k :
         | OGet sig :: r =>
             tb_exec ps orc sfuel f k
               (tb_put st k (TB (tb_run t) r (tb_trig t) (tb_res t) 0 (tb_cnt t) (tb_critical t))
-                      [zk k; -1; nth sig (currs (e_slots st)) 0])
+                      [[-1; nth sig (currs (e_slots st)) 0]])
         | OAwait spec _ :: _ => tb_put st k (wait_on t (fresh_trig spec true nowz) 1 0) []
         | OUntil spec :: _ => tb_put st k (wait_on t (fresh_trig spec false nowz) 2 0) []
         | ORepeat spec n :: _ => tb_put st k (wait_on t (fresh_trig spec false nowz) 3 n) []
         end
-      else if t_broken (tb_trig t) then tb_put st k (finish_tb t) [zk k; -7]
+      else if t_broken (tb_trig t) then tb_put st k (finish_tb t) [[-7]]
       else
         let res := tb_res t in
         let pop := TB false (tl (tb_ops t)) (tb_trig t) [] 0 0 (tb_critical t) in
         if tb_mode t =? 1 then
           let tick := match tb_ops t with OAwait _ b :: _ => b | _ => false end in
-          tb_exec ps orc sfuel f k (tb_put st k pop ([zk k; -2; nowz] ++ (if tick then tick_fmt res else res)))
+          tb_exec ps orc sfuel f k (tb_put st k pop [-2 :: nowz :: (if tick then tick_fmt res else res)])
         else
           match tick_fmt res with
           | c :: r :: vs =>
-              if negb (r =? 0) then tb_put st k (finish_tb t) [zk k; -8]
+              if negb (r =? 0) then tb_put st k (finish_tb t) [[-8]]
               else if tb_mode t =? 2 then
                 (* until: done is the last sampled value *)
                 if negb (last vs 0 =? 0)
-                then tb_exec ps orc sfuel f k (tb_put st k pop ([zk k; -2; nowz] ++ removelast vs))
+                then tb_exec ps orc sfuel f k (tb_put st k pop [-2 :: nowz :: removelast vs])
                 else tb_put st k (wait_on t (rewait (tb_trig t)) 2 0) []
               else
                 match tb_cnt t with
                 | S (S m) => tb_put st k (wait_on t (rewait (tb_trig t)) 3 (S m)) []
-                | _ => tb_exec ps orc sfuel f k (tb_put st k pop ([zk k; -2; nowz] ++ vs))
+                | _ => tb_exec ps orc sfuel f k (tb_put st k pop [-2 :: nowz :: vs])
                 end
-          | _ => tb_put st k (finish_tb t) [zk k; -7]
+          | _ => tb_put st k (finish_tb t) [[-7]]
           end
   end.
 
